@@ -13,27 +13,27 @@ open HTree
 
 /-- One level of a path: the node (`h`, `v`) whose child list contains the hole, with its own
     left and right siblings. -/
-structure Frame where
+structure ZipFrame where
   l : List HTree
   h : Nat
   v : Value
   r : List HTree
 
 /-- Fill the hole. -/
-def plug : List Frame → List HTree → List HTree
+def plug : List ZipFrame → List HTree → List HTree
   | [], ks => ks
   | fr :: rest, ks => fr.l ++ HTree.node fr.h fr.v (plug rest ks) :: fr.r
 
 /-- Handles of the context part of a path. -/
-def pathHandles : List Frame → List Nat
+def pathHandles : List ZipFrame → List Nat
   | [] => []
   | fr :: rest => handlesList fr.l ++ fr.h :: (pathHandles rest ++ handlesList fr.r)
 
 @[simp] theorem plug_nil (ks : List HTree) : plug [] ks = ks := rfl
-@[simp] theorem plug_cons (fr : Frame) (rest : List Frame) (ks : List HTree) :
+@[simp] theorem plug_cons (fr : ZipFrame) (rest : List ZipFrame) (ks : List HTree) :
     plug (fr :: rest) ks = fr.l ++ HTree.node fr.h fr.v (plug rest ks) :: fr.r := rfl
 
-theorem plug_append (p1 p2 : List Frame) (ks : List HTree) :
+theorem plug_append (p1 p2 : List ZipFrame) (ks : List HTree) :
     plug (p1 ++ p2) ks = plug p1 (plug p2 ks) := by
   induction p1 with
   | nil => rfl
@@ -41,12 +41,12 @@ theorem plug_append (p1 p2 : List Frame) (ks : List HTree) :
 
 /-! ### Elementary facts about `handles` -/
 
-@[simp] theorem handles_node (h : Nat) (v : Value) (ks : List HTree) :
+@[simp] theorem fi_handles_node (h : Nat) (v : Value) (ks : List HTree) :
     handles (.node h v ks) = h :: handlesList ks := by simp [handles]
 
-@[simp] theorem handlesList_nil : handlesList [] = [] := by simp [handlesList]
+@[simp] theorem fi_handlesList_nil : handlesList [] = [] := by simp [handlesList]
 
-@[simp] theorem handlesList_cons (k : HTree) (ks : List HTree) :
+@[simp] theorem fi_handlesList_cons (k : HTree) (ks : List HTree) :
     handlesList (k :: ks) = handles k ++ handlesList ks := by simp [handlesList]
 
 @[simp] theorem fi_handlesList_append (a b : List HTree) :
@@ -67,12 +67,12 @@ theorem fi_handle_mem_handles (t : HTree) : t.handle ∈ handles t := by
 
 theorem node_eta (t : HTree) : HTree.node t.handle t.value t.kids = t := by cases t; rfl
 
-theorem handlesList_plug_perm (path : List Frame) (ks : List HTree) :
+theorem handlesList_plug_perm (path : List ZipFrame) (ks : List HTree) :
     (handlesList (plug path ks)).Perm (pathHandles path ++ handlesList ks) := by
   induction path with
   | nil => simp [pathHandles]
   | cons fr rest ih =>
-    simp only [plug_cons, fi_handlesList_append, handlesList_cons, handles_node, pathHandles,
+    simp only [plug_cons, fi_handlesList_append, fi_handlesList_cons, fi_handles_node, pathHandles,
       List.append_assoc, List.cons_append]
     refine List.Perm.append_left _ (List.Perm.cons _ ?_)
     -- handlesList (plug rest ks) ++ fr.r  ~  pathHandles rest ++ fr.r ++ ks
@@ -80,11 +80,11 @@ theorem handlesList_plug_perm (path : List Frame) (ks : List HTree) :
     simp only [List.append_assoc]
     exact List.Perm.append_left _ List.perm_append_comm
 
-theorem mem_handlesList_plug {path : List Frame} {ks : List HTree} {x : Nat} :
+theorem mem_handlesList_plug {path : List ZipFrame} {ks : List HTree} {x : Nat} :
     x ∈ handlesList (plug path ks) ↔ x ∈ pathHandles path ∨ x ∈ handlesList ks := by
   rw [(handlesList_plug_perm path ks).mem_iff]; simp
 
-theorem nodup_plug {path : List Frame} {ks : List HTree} :
+theorem nodup_plug {path : List ZipFrame} {ks : List HTree} :
     (handlesList (plug path ks)).Nodup ↔ (pathHandles path ++ handlesList ks).Nodup :=
   (handlesList_plug_perm path ks).nodup_iff
 
@@ -94,7 +94,7 @@ mutual
   theorem find?_of_not_mem (h : Nat) : ∀ t : HTree, h ∉ handles t → find? h t = none
     | .node h' v ks => by
       intro hm
-      simp only [handles_node, List.mem_cons, not_or] at hm
+      simp only [fi_handles_node, List.mem_cons, not_or] at hm
       unfold find?
       rw [if_neg (fun e => hm.1 e.symm)]
       exact findList?_of_not_mem h ks hm.2
@@ -102,14 +102,14 @@ mutual
     | [] => by intro _; simp [findList?]
     | k :: ks => by
       intro hm
-      simp only [handlesList_cons, List.mem_append, not_or] at hm
+      simp only [fi_handlesList_cons, List.mem_append, not_or] at hm
       unfold findList?
       rw [find?_of_not_mem h k hm.1]
       exact findList?_of_not_mem h ks hm.2
 end
 
 mutual
-  theorem replaceBelow_of_not_mem (h : Nat) (g : HTree → List HTree) : ∀ t : HTree,
+  theorem fi_replaceBelow_of_not_mem (h : Nat) (g : HTree → List HTree) : ∀ t : HTree,
       h ∉ handlesList t.kids → replaceBelow h g t = t
     | .node h' v ks => by
       intro hm
@@ -120,12 +120,12 @@ mutual
     | [] => by intro _; simp [replaceKids]
     | k :: ks => by
       intro hm
-      simp only [handlesList_cons, List.mem_append, not_or] at hm
+      simp only [fi_handlesList_cons, List.mem_append, not_or] at hm
       have hk : k.handle ≠ h := fun e => hm.1 (e ▸ fi_handle_mem_handles k)
       have hkids : h ∉ handlesList k.kids := by
         intro hc; apply hm.1; rw [fi_handles_eq]; exact List.mem_cons_of_mem _ hc
       unfold replaceKids
-      rw [if_neg hk, replaceBelow_of_not_mem h g k hkids, replaceKids_of_not_mem h g ks hm.2]
+      rw [if_neg hk, fi_replaceBelow_of_not_mem h g k hkids, replaceKids_of_not_mem h g ks hm.2]
 end
 
 mutual
@@ -133,7 +133,7 @@ mutual
       h ∉ handles t → mapAt h g t = t
     | .node h' v ks => by
       intro hm
-      simp only [handles_node, List.mem_cons, not_or] at hm
+      simp only [fi_handles_node, List.mem_cons, not_or] at hm
       unfold mapAt
       rw [if_neg (fun e => hm.1 e.symm), mapAtList_of_not_mem h g ks hm.2]
   theorem mapAtList_of_not_mem (h : Nat) (g : HTree → HTree) : ∀ ks : List HTree,
@@ -141,53 +141,53 @@ mutual
     | [] => by intro _; simp [mapAtList]
     | k :: ks => by
       intro hm
-      simp only [handlesList_cons, List.mem_append, not_or] at hm
+      simp only [fi_handlesList_cons, List.mem_append, not_or] at hm
       unfold mapAtList
       rw [mapAt_of_not_mem h g k hm.1, mapAtList_of_not_mem h g ks hm.2]
 end
 
 mutual
-  theorem ctxBelow_of_not_mem (h : Nat) : ∀ t : HTree,
+  theorem fi_ctxBelow_of_not_mem (h : Nat) : ∀ t : HTree,
       h ∉ handlesList t.kids → ctxBelow h t = none
     | .node h' v ks => by
       intro hm
       unfold ctxBelow
-      exact ctxKids_of_not_mem h h' ks [] hm
-  theorem ctxKids_of_not_mem (h p : Nat) : ∀ (ks acc : List HTree),
+      exact fi_ctxKids_of_not_mem h h' ks [] hm
+  theorem fi_ctxKids_of_not_mem (h p : Nat) : ∀ (ks acc : List HTree),
       h ∉ handlesList ks → ctxKids h p acc ks = none
     | [], acc => by intro _; simp [ctxKids]
     | k :: ks, acc => by
       intro hm
-      simp only [handlesList_cons, List.mem_append, not_or] at hm
+      simp only [fi_handlesList_cons, List.mem_append, not_or] at hm
       have hk : k.handle ≠ h := fun e => hm.1 (e ▸ fi_handle_mem_handles k)
       have hkids : h ∉ handlesList k.kids := by
         intro hc; apply hm.1; rw [fi_handles_eq]; exact List.mem_cons_of_mem _ hc
       unfold ctxKids
-      rw [if_neg hk, ctxBelow_of_not_mem h k hkids]
-      exact ctxKids_of_not_mem h p ks (acc ++ [k]) hm.2
+      rw [if_neg hk, fi_ctxBelow_of_not_mem h k hkids]
+      exact fi_ctxKids_of_not_mem h p ks (acc ++ [k]) hm.2
 end
 
 mutual
-  theorem ancestorsOf_of_not_mem (h : Nat) : ∀ t : HTree, h ∉ handles t → ancestorsOf h t = none
+  theorem fi_ancestorsOf_of_not_mem (h : Nat) : ∀ t : HTree, h ∉ handles t → ancestorsOf h t = none
     | .node h' v ks => by
       intro hm
-      simp only [handles_node, List.mem_cons, not_or] at hm
+      simp only [fi_handles_node, List.mem_cons, not_or] at hm
       unfold ancestorsOf
-      rw [if_neg (fun e => hm.1 e.symm), ancestorsOfList_of_not_mem h ks hm.2]
-  theorem ancestorsOfList_of_not_mem (h : Nat) : ∀ ks : List HTree,
+      rw [if_neg (fun e => hm.1 e.symm), fi_ancestorsOfList_of_not_mem h ks hm.2]
+  theorem fi_ancestorsOfList_of_not_mem (h : Nat) : ∀ ks : List HTree,
       h ∉ handlesList ks → ancestorsOfList h ks = none
     | [] => by intro _; simp [ancestorsOfList]
     | k :: ks => by
       intro hm
-      simp only [handlesList_cons, List.mem_append, not_or] at hm
+      simp only [fi_handlesList_cons, List.mem_append, not_or] at hm
       unfold ancestorsOfList
-      rw [ancestorsOf_of_not_mem h k hm.1]
-      exact ancestorsOfList_of_not_mem h ks hm.2
+      rw [fi_ancestorsOf_of_not_mem h k hm.1]
+      exact fi_ancestorsOfList_of_not_mem h ks hm.2
 end
 
 /-! ### Equation lemmas (the `cons` cases, usable with `rw` on one side only) -/
 
-theorem findList?_cons (h : Nat) (k : HTree) (ks : List HTree) :
+theorem fi_findList?_cons (h : Nat) (k : HTree) (ks : List HTree) :
     findList? h (k :: ks) = (find? h k).or (findList? h ks) := by
   rw [findList?]; cases find? h k <;> rfl
 
@@ -209,27 +209,27 @@ theorem ancestorsOfList_cons (h : Nat) (k : HTree) (ks : List HTree) :
 
 /-! ### Skipping a prefix that does not contain the handle -/
 
-theorem findList?_append_of_not_mem (h : Nat) (l rest : List HTree) (hm : h ∉ handlesList l) :
+theorem fi_findList?_append_of_not_mem (h : Nat) (l rest : List HTree) (hm : h ∉ handlesList l) :
     findList? h (l ++ rest) = findList? h rest := by
   induction l with
   | nil => rfl
   | cons k ks ih =>
-    simp only [handlesList_cons, List.mem_append, not_or] at hm
+    simp only [fi_handlesList_cons, List.mem_append, not_or] at hm
     simp only [List.cons_append]
-    rw [findList?_cons, find?_of_not_mem h k hm.1, Option.none_or]
+    rw [fi_findList?_cons, find?_of_not_mem h k hm.1, Option.none_or]
     exact ih hm.2
 
-theorem replaceKids_append_of_not_mem (h : Nat) (g : HTree → List HTree) (l rest : List HTree)
+theorem fi_replaceKids_append_of_not_mem (h : Nat) (g : HTree → List HTree) (l rest : List HTree)
     (hm : h ∉ handlesList l) : replaceKids h g (l ++ rest) = l ++ replaceKids h g rest := by
   induction l with
   | nil => rfl
   | cons k ks ih =>
-    simp only [handlesList_cons, List.mem_append, not_or] at hm
+    simp only [fi_handlesList_cons, List.mem_append, not_or] at hm
     have hk : k.handle ≠ h := fun e => hm.1 (e ▸ fi_handle_mem_handles k)
     have hkids : h ∉ handlesList k.kids := by
       intro hc; apply hm.1; rw [fi_handles_eq]; exact List.mem_cons_of_mem _ hc
     simp only [List.cons_append]
-    rw [replaceKids_cons, if_neg hk, replaceBelow_of_not_mem h g k hkids, ih hm.2]
+    rw [replaceKids_cons, if_neg hk, fi_replaceBelow_of_not_mem h g k hkids, ih hm.2]
 
 theorem mapAtList_append (h : Nat) (g : HTree → HTree) (l rest : List HTree) :
     mapAtList h g (l ++ rest) = mapAtList h g l ++ mapAtList h g rest := by
@@ -240,12 +240,12 @@ theorem ctxKids_append_of_not_mem (h p : Nat) (l rest acc : List HTree) (hm : h 
   induction l generalizing acc with
   | nil => simp
   | cons k ks ih =>
-    simp only [handlesList_cons, List.mem_append, not_or] at hm
+    simp only [fi_handlesList_cons, List.mem_append, not_or] at hm
     have hk : k.handle ≠ h := fun e => hm.1 (e ▸ fi_handle_mem_handles k)
     have hkids : h ∉ handlesList k.kids := by
       intro hc; apply hm.1; rw [fi_handles_eq]; exact List.mem_cons_of_mem _ hc
     simp only [List.cons_append]
-    rw [ctxKids_cons, if_neg hk, ctxBelow_of_not_mem h k hkids, Option.none_or]
+    rw [ctxKids_cons, if_neg hk, fi_ctxBelow_of_not_mem h k hkids, Option.none_or]
     rw [ih (acc ++ [k]) hm.2]
     simp
 
@@ -254,9 +254,9 @@ theorem ancestorsOfList_append_of_not_mem (h : Nat) (l rest : List HTree) (hm : 
   induction l with
   | nil => rfl
   | cons k ks ih =>
-    simp only [handlesList_cons, List.mem_append, not_or] at hm
+    simp only [fi_handlesList_cons, List.mem_append, not_or] at hm
     simp only [List.cons_append]
-    rw [ancestorsOfList_cons, ancestorsOf_of_not_mem h k hm.1, Option.none_or]
+    rw [ancestorsOfList_cons, fi_ancestorsOf_of_not_mem h k hm.1, Option.none_or]
     exact ih hm.2
 
 end XotModel
